@@ -495,6 +495,26 @@ func gen(g *core.G) {
 	for i := 0; i < trees/4; i++ {
 		g.Emit("@strict" + strings.TrimPrefix(randTree(g.Rng, lookups/2).String(), "tree"))
 	}
+	// implementation-only: every name also looked up in the namespaces function / task / plan (no smart path serves them)
+	for i := 0; i < trees/6; i++ {
+		g.Emit("@nsprobe" + strings.TrimPrefix(randTree(g.Rng, lookups/2).String(), "tree"))
+	}
+	for _, via := range []string{"g", "d", "e", "m:mymod", "f:mymod"} {
+		g.Emit("@nsprobe" + strings.TrimPrefix(spec{mods: []string{"other", "mymod"}, files: deepFiles, via: via,
+			lookups: []lookup{{op: "load", name: "Mymod"}, {op: "load", name: "Mymod::Sub"}, {op: "load", name: "Mymod::Sub::Deep::Leaf"},
+				{op: "load", name: "Top"}, {op: "load", name: "Ns::A"}, {op: "load", name: "Other"}, {op: "load", name: "Other::Tb"},
+				{op: "load", name: "Mymod::Init"}, {op: "load", name: "Mymod::Set::Ta"}}}.String(), "tree"))
+	}
+	// the module's init_typeset.pp defines something that is no type set: PCORE_NOT_EXPECTED_TYPESET naming that file
+	for _, via := range []string{"d", "e", "m:mymod", "f:mymod"} {
+		for _, b := range []body{{kind: "alias", name: "Mymod"}, {kind: "object", name: "Mymod"}, {kind: "bare"},
+			{kind: "typeset", name: "Mymod", types: []string{"Ta"}}, {kind: "alias", name: "Other"}} {
+			emit(spec{mods: []string{"mymod", "other"}, via: via,
+				files: []file{{segs: []string{"modules", "mymod", "types", "init_typeset.pp"}, body: b}},
+				lookups: []lookup{{op: "load", name: "Mymod"}, {op: "load", name: "MYMOD"}, {op: "load", name: "Mymod::Ta"},
+					{op: "load", name: "Mymod"}, {op: "has", name: "Mymod"}, {op: "has", name: "Init_typeset"}, {op: "discover"}}})
+		}
+	}
 	// implementation-only: the same kind of tree looked at from forked contexts (a fresh child loader per lookup)
 	for i := 0; i < trees/6; i++ {
 		g.Emit("@forked" + strings.TrimPrefix(randTree(g.Rng, lookups/2).String(), "tree"))
@@ -531,6 +551,17 @@ func gen(g *core.G) {
 			nm = caseVariant(g.Rng, nm)
 		}
 		g.Emit("ep " + sx.Str(mod).Atom + " " + sx.Str(nm).Atom)
+	}
+	// the constructor: every kind of module name x every list of path types (registered, unregistered, none, repeated)
+	for _, mod := range []string{"", "environment", "mymod", "other"} {
+		for _, pts := range [][]string{{"puppetDataType"}, {}, {"puppetFunction"}, {"plan"}, {"task"}, {"puppetDataType", "task"},
+			{"bogus"}, {"puppetDataType", "puppetDataType"}, {"plan", "puppetDataType"}} {
+			ps := make([]sx.Sexp, len(pts))
+			for i, p := range pts {
+				ps[i] = sx.Str(p)
+			}
+			g.Emit("ctor " + sx.Str(mod).Atom + " " + sx.L(ps...).String())
+		}
 	}
 	// malformed stream: trees that are not well-formed must be refused alike by both sides
 	bad := []spec{
